@@ -91,6 +91,7 @@ func streamOps() []sop {
 		{"Append()", 0, func(r, a coll.Stream) coll.Stream { return r.Append() }, func(r, a []int) []int { return cp(r) }, false},
 		{"Concat([7])", 0, func(r, a coll.Stream) coll.Stream { return r.Concat([]int{7}) }, func(r, a []int) []int { return append(cp(r), 7) }, false},
 		{"Concat()", 0, func(r, a coll.Stream) coll.Stream { return r.Concat() }, func(r, a []int) []int { return cp(r) }, false},
+		{"Concat(a's own slice)", 1, func(r, a coll.Stream) coll.Stream { return r.ConcatStream(a) }, func(r, a []int) []int { return append(cp(r), a...) }, false},
 		{"Extend(a)", 1, func(r, a coll.Stream) coll.Stream { return r.Extend(a) }, func(r, a []int) []int { return append(cp(r), a...) }, false},
 		{"Extend()", 0, func(r, a coll.Stream) coll.Stream { return r.Extend() }, func(r, a []int) []int { return cp(r) }, false},
 		{"RemoveItem(2)", 0, func(r, a coll.Stream) coll.Stream { return r.RemoveItem(2) }, func(r, a []int) []int { return without(r, map[int]bool{2: true}) }, false},
